@@ -30,6 +30,24 @@ def is_num(x):
     return isinstance(x, (np.integer, np.floating, np.bool_))
 
 
+# Python float literals that stand for an irrational constant the code means
+# exactly (2**0.5 is constant-folded by the compiler and never reaches the
+# numpy proxy): they are mapped to the same root atom as np.sqrt(2.), so that
+# sqrt(2.) / 2**0.5 == 1 as in floating point.
+_IRRATIONAL_FLOATS = {2 ** 0.5: (2, 1), 0.5 ** 0.5: (1, 2), 3 ** 0.5: (3, 1)}
+
+
+def _special_float(o):
+    if type(o) is float or (hasattr(o, 'dtype') and getattr(o, 'ndim', 1) == 0 and getattr(o.dtype, 'kind', '') == 'f'):
+        q = _IRRATIONAL_FLOATS.get(abs(float(o)))
+        if q is not None:
+            ctx = _ctx()
+            if ctx is not None and hasattr(ctx, 'root'):
+                r = ctx.root(Sym(Poly.const(Fraction(q[0], q[1]))), 2)
+                return r if o > 0 else -r
+    return o
+
+
 class SymBool:
     __slots__ = ('f',)
 
@@ -224,6 +242,8 @@ class Sym:
 
     def __add__(self, o):
         if type(o) is not Sym:
+            o = _special_float(o)
+        if type(o) is not Sym:
             if isinstance(o, SymExpBase):
                 return NotImplemented
             try:
@@ -259,6 +279,8 @@ class Sym:
 
     def __sub__(self, o):
         if type(o) is not Sym:
+            o = _special_float(o)
+        if type(o) is not Sym:
             try:
                 o = Sym(Poly.const(o))
             except TypeError:
@@ -266,12 +288,17 @@ class Sym:
         return self + (-o)
 
     def __rsub__(self, o):
+        o = _special_float(o)
+        if type(o) is Sym:
+            return o + (-self)
         try:
             return Sym(Poly.const(o)) + (-self)
         except TypeError:
             return NotImplemented
 
     def __mul__(self, o):
+        if type(o) is not Sym:
+            o = _special_float(o)
         if type(o) is not Sym:
             try:
                 c = to_q(o)
@@ -326,6 +353,8 @@ class Sym:
 
     def __truediv__(self, o):
         if type(o) is not Sym:
+            o = _special_float(o)
+        if type(o) is not Sym:
             if isinstance(o, SymExpBase):
                 return NotImplemented
             try:
@@ -341,6 +370,9 @@ class Sym:
         return self * o.inv()
 
     def __rtruediv__(self, o):
+        o = _special_float(o)
+        if type(o) is Sym:
+            return o * self.inv()
         try:
             return Sym(Poly.const(o)) * self.inv()
         except TypeError:
